@@ -16,7 +16,7 @@ VERIF = Path(__file__).resolve().parent.parent
 LEAN = VERIF / "lean"
 HARNESS = VERIF / "harness"
 WORK = VERIF / "work"
-REPO = Path("/repo")
+REPO = Path(os.environ.get("VERIF_REPO", "/repo"))
 JOBS = int(os.environ.get("VERIF_JOBS", "16"))
 ALLOWED_AXIOMS = {"propext", "Classical.choice", "Quot.sound"}
 FORBIDDEN = re.compile(r"\b(sorry|admit|native_decide|bv_decide|implemented_by|unsafe)\b|^axiom |maxHeartbeats 0")
@@ -99,6 +99,43 @@ def audit_axioms(modules, pid):
     missing = [t for t in thms if t not in res]
     return {"theorems": thms, "axioms": res, "bad": bad, "missing": missing, "rc": rc_all,
             "log": logs if (rc_all != 0 or missing) else ""}
+
+
+# ------------------------------------------------------- translator tie (rs2lean)
+RS2LEAN = VERIF / "rs2lean"
+GEN = LEAN / "RxModel" / "Gen"
+
+
+def regen_and_tie(tie_modules):
+    """Regenerate lean/RxModel/Gen/*.lean from the CURRENT /repo/src with the translator, then build the
+    property's tie theorems (RxModel.GenTie.*) against the regenerated definitions.
+    Returns (broken: {module: message}, log, seconds).  A translator failure for an observer leaves its
+    definitions out of the generated file, so the tie module of that file fails to build."""
+    t0 = time.time()
+    broken, logs = {}, ""
+    if not tie_modules:
+        return broken, logs, 0.0
+    rc, out = sh(["cargo", "build", "--release", "--offline"], cwd=RS2LEAN)
+    if rc != 0:
+        return {m: "rs2lean does not build" for m in tie_modules}, out, time.time() - t0
+    rc, out = sh([str(RS2LEAN / "target" / "release" / "rs2lean"), str(REPO / "src"), str(GEN)])
+    logs += out
+    notes = {}
+    for line in out.splitlines():
+        # "ops/distinct.rs: DistinctObserver: field seen: type ... not understood"
+        if ": " in line and line.split(":")[0].endswith(".rs"):
+            notes.setdefault(line.split(":")[0], []).append(line)
+    rc, out = sh(["lake", "build"] + list(tie_modules), cwd=LEAN)
+    if rc != 0:
+        logs += out
+        for m in tie_modules:
+            rel = m.replace(".", "/") + ".lean"
+            errs = [l for l in out.splitlines() if l.startswith("error:") and rel in l]
+            failed_dep = [l for l in out.splitlines() if l.startswith("error:") and
+                          ("Gen/" + m.split(".")[-1] + ".lean") in l]
+            if errs or failed_dep or re.search(r"^- " + re.escape(m) + r"$", out, flags=re.M):
+                broken[m] = (errs or failed_dep or ["build failed"])[0][:300]
+    return broken, logs, time.time() - t0
 
 
 def build_harness():
